@@ -22,6 +22,7 @@ int& current_rank()
 
 MpiWorld::MpiWorld(int P, std::uint64_t sseed, int rorder, double stall_p)
     : ranks(P)
+    , sseed_(sseed)
     , rng_(sseed)
     , rorder_(rorder)
     , stall_p_(stall_p)
@@ -70,6 +71,21 @@ int MpiWorld::allreduce(int r, void* buf, int count, int dtype, int comm)
     }
 
     return MPI_SUCCESS;
+}
+
+void MpiWorld::fs_point(int r)
+{
+    if (fs_yield_p <= 0 || aborted || hang) return;
+    if (!rng_.chance(fs_yield_p)) return;
+    ++fs_yields;
+    ++step_budget;
+    yield_from(r);
+}
+
+void fs_sched_point()
+{
+    MpiWorld* const w = current_world();
+    if (w != nullptr) w->fs_point(current_rank());
 }
 
 std::vector<int> MpiWorld::members_of(int comm, int world_rank) const
@@ -160,11 +176,16 @@ void MpiWorld::reduce_group(std::vector<int> const& members)
 
     std::vector<int> order(members);
 
+    // the order of the reduction is a function of the schedule seed and the number of the collective
+    // only: what the scheduler drew in between (stalls, descheduling before file system calls) has no
+    // say in it, so that runs which differ in their file traffic alone reduce alike
+    Rng red(mix2(sseed_ ^ 0x9e3779b97f4a7c15ULL, collectives + 1000003ULL * static_cast<std::uint64_t>(members[0])));
+
     if (rorder_ == 1 || rorder_ == 2)
     {
         for (std::size_t k = P; k > 1; --k)
         {
-            std::swap(order[k - 1], order[rng_.below(k)]);
+            std::swap(order[k - 1], order[red.below(k)]);
         }
     }
 
@@ -188,14 +209,14 @@ void MpiWorld::reduce_group(std::vector<int> const& members)
 
     switch (dtype)
     {
-    case MPI_UNSIGNED: reduce_typed<unsigned>(ranks, order, rorder_, rng_, count); break;
-    case MPI_UNSIGNED_LONG: reduce_typed<unsigned long>(ranks, order, rorder_, rng_, count); break;
+    case MPI_UNSIGNED: reduce_typed<unsigned>(ranks, order, rorder_, red, count); break;
+    case MPI_UNSIGNED_LONG: reduce_typed<unsigned long>(ranks, order, rorder_, red, count); break;
     case MPI_UNSIGNED_LONG_LONG:
-        reduce_typed<unsigned long long>(ranks, order, rorder_, rng_, count);
+        reduce_typed<unsigned long long>(ranks, order, rorder_, red, count);
         break;
-    case MPI_FLOAT: reduce_typed<float>(ranks, order, rorder_, rng_, count); break;
-    case MPI_DOUBLE: reduce_typed<double>(ranks, order, rorder_, rng_, count); break;
-    case MPI_LONG_DOUBLE: reduce_typed<long double>(ranks, order, rorder_, rng_, count); break;
+    case MPI_FLOAT: reduce_typed<float>(ranks, order, rorder_, red, count); break;
+    case MPI_DOUBLE: reduce_typed<double>(ranks, order, rorder_, red, count); break;
+    case MPI_LONG_DOUBLE: reduce_typed<long double>(ranks, order, rorder_, red, count); break;
     default: break;
     }
 
